@@ -325,7 +325,7 @@ package types
 //@   requires forall i int :: 0 <= i && i < len(options) ==> options[i] != nil
 
 //@ func (*Project).withServices
-//@   except precondition#2 : undischarged on the reference tree (engine limit or missing callee contract), not claimed
+//@   except precondition@cadecd#2 : undischarged on the reference tree (engine limit or missing callee contract), not claimed
 //@   nopanic[C14,C15]
 //@   requires fn != nil && seen != nil
 //@   requires forall i int :: 0 <= i && i < len(options) ==> options[i] != nil
@@ -368,10 +368,10 @@ package types
 // group's context is cancelled), so the result channel is buffered for one result per service
 //@   callsite[C19] make(chan) : arg0 == len(p.Services)
 //@ func (*Project).WithServicesTransform$1
-//@   except nilderef#3, nilderef#5, panic#1 : undischarged on the reference tree (engine limit or missing callee contract), not claimed
+//@   except nilderef@8da3ce#2, nilderef@ede950#2, panic#1 : undischarged on the reference tree (engine limit or missing callee contract), not claimed
 //@   nopanic[C14]
 //@ func (*Project).WithServicesTransform$2
-//@   except nilfunc#1, precondition#1 : undischarged on the reference tree (engine limit or missing callee contract), not claimed
+//@   except nilfunc@d11da1#1, precondition#1 : undischarged on the reference tree (engine limit or missing callee contract), not claimed
 //@   nopanic[C14]
 
 // ---------- C20: rendering options ----------
@@ -412,7 +412,7 @@ package types
 //@     invariant len(options) == 0 ==> !opts.secretsContent
 
 //@ func (*Project).MarshalYAML
-//@   except precondition#2 : undischarged on the reference tree (engine limit or missing callee contract), not claimed
+//@   except precondition@eb588d#2 : undischarged on the reference tree (engine limit or missing callee contract), not claimed
 //@   nopanic[C20]
 //@   requires forall i int :: 0 <= i && i < len(options) ==> options[i] != nil
 //@ func (*Project).MarshalJSON
@@ -425,7 +425,7 @@ package types
 // havocked) and loadEnvFile/OverrideBy/ToMappingWithEquals whose contracts belong to the mapping.go worker; without them
 // no invariant about newProject.Services survives an iteration. The clauses below are what C15/C16 demand.
 //@ func (Project).WithServicesEnvironmentResolved
-//@   except nilmap#1 : undischarged on the reference tree (engine limit or missing callee contract), not claimed
+//@   except nilmap@4f9527#1 : undischarged on the reference tree (engine limit or missing callee contract), not claimed
 //@   nopanic[C14,C16]
 //@   ensures[C14] err == nil ==> result != nil && fresh(result)
 //@?  ensures[C15] err == nil ==> forall k string :: has(result.Services, k) <==> has(p.Services, k)
@@ -438,7 +438,7 @@ package types
 //@     invariant newProject != nil && fresh(newProject)
 
 //@ func (Project).WithServicesLabelsResolved
-//@   except nilmap#1 : undischarged on the reference tree (engine limit or missing callee contract), not claimed
+//@   except nilmap@4f9527#1 : undischarged on the reference tree (engine limit or missing callee contract), not claimed
 //@   nopanic[C14,C16]
 //@   ensures[C14] err == nil ==> result != nil && fresh(result)
 //@   loop 1
@@ -463,7 +463,7 @@ package types
 //@ func loadLabelFile
 //@   nopanic[C16]
 //@ func loadMappingFile
-//@   except precondition#1 : undischarged on the reference tree (engine limit or missing callee contract), not claimed
+//@   except precondition@8d9774#1 : undischarged on the reference tree (engine limit or missing callee contract), not claimed
 //@   nopanic[C16]
 
 // ---------- GENERATED from go/types: copyOf_* macros and deriveDeepCopy* contracts ----------
